@@ -67,7 +67,7 @@ def run(tier, seed):
     rep.floor("type/encoding/nullability combinations exercised", len(combos), 60)
     rep.floor("multi-block columns", tot["multi"], per * shards // 10)
     rep.assumptions = ["fixed-width CHAR blocks are not reachable from SQL (column builders always pass char_width=None) and are not driven",
-                       "free-form misuse of the iterator protocol (batches larger than fetch_hint) is not driven: the contract is the one RowSetIterator follows"]
+                       "scripts 0-1 of a case stay within fetch_hint (the contract RowSetIterator follows); later scripts also request batches that span several blocks, which ConcreteColumnIterator supports by design"]
     if tier == "thorough" and not os.environ.get("VERIF_OVERLAY"):
         import sanitize
         sanitize.overlay(rep, "asan", timeout=5400)
